@@ -12,7 +12,7 @@ token list.  Tie = correspondence:
 Exercised only (CPython's tokenizer and parser are outside the model), stream `property:*`: the cleaned
 text is valid Python, has the same AST modulo the four kinds of noise, no comment but hints, every hint
 kept, no blank line, invariance under insertion of comments / blank lines / docstrings, idempotence.
-A failure there is a violation with the program as replay.  Known defects get a narrow signature by
+A failure there is a violation with the program as replay.  The one defect still open (F20, main guard) gets its narrow signature by
 *neutralisation*: the violation must disappear when exactly the offending shape is removed from the input.
 """
 import ast
@@ -43,6 +43,9 @@ def init_kinds(pp):
     KINDS.clear()
     KINDS.update({pp.COMMENT: "COMMENT", pp.STRING: "STRING", pp.NEWLINE: "NEWLINE", pp.NL: "NL",
                   pp.INDENT: "INDENT", pp.DEDENT: "DEDENT"})
+    fm = getattr(pp, "FSTRING_MIDDLE", None)  # compared with in the loop since repair 2488bc4
+    if fm is not None:
+        KINDS[fm] = "FSTRING_MIDDLE"
 
 
 def in_alphabet(text):
@@ -106,7 +109,7 @@ def regex_streams(ctx, drv, Cleanup):
     inj = '__import__("sys").path[0:0] = '
     plans = [
         ("first_comments", Cleanup.suppress_first_comments,
-         ["#", "x", "\n", " ", "# paroxython: a", "\r"], 5 if quick else 6),
+         ["#", "x", "\n", " ", "# paroxython: a", "paroxython", ":", "#PAROXYTHON\t:"], 5 if quick else 6),
         ("main_guard", Cleanup.suppress_main_guard,
          ["if ", " ", "__name__", "==", "'", "__main__", ":", "\n", "x"], 4 if quick else 5),
         ("sys_path", Cleanup.suppress_sys_path_injection,
@@ -116,7 +119,7 @@ def regex_streams(ctx, drv, Cleanup):
         ("blank_lines", Cleanup.suppress_blank_lines,
          [" ", "\t", "\n", "x", "\r", "\x0c"], 5 if quick else 7),
         ("useless_pass", Cleanup.suppress_useless_pass_statements,
-         [" ", "pass", "\n", "x", "  ", "\t"], 5 if quick else 7),
+         [" ", "pass", "\n", "x", "  ", "\t", "#", "  # c\n"], 5 if quick else 6),
         ("strip", lambda s: s.strip(), [" ", "\n", "x", "\t", "\x0b"], 5 if quick else 7),
         ("tabs", lambda s: s.replace("\t", "    "), ["\t", " ", "x", "\n"], 4 if quick else 6),
     ]
@@ -222,8 +225,9 @@ def loop_batch(drv, cases, chunk=500):
 
 
 def synthetic_tokens(rng, n):
-    kinds = ["COMMENT", "STRING", "NEWLINE", "NL", "INDENT", "DEDENT", "OTHER", "OTHER"]
+    kinds = ["COMMENT", "STRING", "NEWLINE", "NL", "INDENT", "DEDENT", "OTHER", "OTHER", "FSTRING_MIDDLE"]
     strings = {
+        "FSTRING_MIDDLE": ["{", "a}", "b", "{}{", ""],
         "COMMENT": ["# c", "# paroxython: a", "#Paroxython :b  ", "#", "# paroxython", "#\tPAROXYTHON\t:\tz # paroxython:q"],
         "STRING": ['"d"', "'''a\n\nb'''", "''"],
         "NEWLINE": ["\n", ""], "NL": ["\n", ""], "INDENT": ["    ", "  "], "DEDENT": [""],
@@ -255,17 +259,18 @@ def loop_synthetic(ctx, drv, pp):
     """Feed the REAL loop with arbitrary token lists by replacing the module's tokenizer."""
     Cleanup = pp.Cleanup
     name2type = {"COMMENT": pp.COMMENT, "STRING": pp.STRING, "NEWLINE": pp.NEWLINE, "NL": pp.NL,
-                 "INDENT": pp.INDENT, "DEDENT": pp.DEDENT, "OTHER": token_mod.OP}
+                 "INDENT": pp.INDENT, "DEDENT": pp.DEDENT, "OTHER": token_mod.OP,
+                 "FSTRING_MIDDLE": getattr(pp, "FSTRING_MIDDLE", None) or token_mod.OP}
     n = 1500 if ctx.tier == "quick" else 20000
     cases = []
     # bounded-exhaustive part: all kind sequences of length <= 4 over 7 kinds with canonical layout
-    kinds = ["COMMENT", "HINT", "STRING", "NEWLINE", "NL", "INDENT", "DEDENT", "OTHER"]
+    kinds = ["COMMENT", "HINT", "STRING", "NEWLINE", "NL", "INDENT", "DEDENT", "OTHER", "FSTRING_MIDDLE"]
     for L in range(0, 5 if ctx.tier == "quick" else 6):
         for ks in itertools.product(kinds, repeat=L):
             toks, row, col = [], 1, 0
             for k in ks:
                 s = {"COMMENT": "# c", "HINT": "#paroxython:h", "STRING": '"s"', "NEWLINE": "\n", "NL": "\n",
-                     "INDENT": "  ", "DEDENT": "", "OTHER": "x"}[k]
+                     "INDENT": "  ", "DEDENT": "", "OTHER": "x", "FSTRING_MIDDLE": "{a}"}[k]
                 kk = "COMMENT" if k == "HINT" else k
                 sc = col + (1 if col else 0)
                 toks.append([kk, s, row, sc, row, sc + len(s)])
@@ -286,10 +291,13 @@ def loop_synthetic(ctx, drv, pp):
             impl = call(Cleanup.full_cleaning, "")
             nontrivial = any(k in ("COMMENT", "STRING") for k, *_ in c)
             ctx.count("loop:synthetic", json.dumps(c), nontrivial=nontrivial)
-            if impl.get("ok") != m["final"]:
+            expected = {"exc": m["raises"]} if m.get("raises") else {"ok": m["final"]}
+            if impl != expected:
                 ctx.cov["disagreements_checked"] += 1
                 loop_disagreement(ctx, drv, "loop:synthetic", {"tokens": c}, impl, m)
                 break
+            if m.get("raises"):
+                ctx.dist("loop:synthetic:IndexError(last token is a STRING at statement start)")
         ctx.cov.setdefault("exhaustive_streams", {})["loop:synthetic"] = {
             "alphabet": kinds, "all_sequences_up_to_length": 4 if ctx.tier == "quick" else 5, "cases": n_ex}
         c = [["NEWLINE", "\n", 1, 5, 1, 6], ["COMMENT", "#Paroxython :b", 2, 0, 2, 14], ["NL", "\n", 2, 14, 2, 15],
@@ -302,7 +310,7 @@ def loop_synthetic(ctx, drv, pp):
 
 
 def loop_disagreement(ctx, drv, stream, case, impl, m):
-    replay = {"kind": stream, **case, "impl": impl, "model": m.get("final")}
+    replay = {"kind": stream, **case, "impl": impl, "model": m.get("raises") or m.get("final")}
     if "tokens" in case:
         replay["spec_per_token"] = drv.call("c13.spec.loop", tokens=case["tokens"])["rows"]
     if "ok" in impl:
@@ -901,13 +909,9 @@ def n_pass_then_hint(src):
 
 
 NEUTRALISERS = [
-    ("C13:module-docstring-after-leading-blank-or-comment-line", n_leading_blank),
-    ("C13:hint-comment-in-leading-comment-block-dropped", n_first_line_hint),
-    ("C13:statement-beginning-with-string-literal", n_string_leading),
-    ("C13:fstring-doubled-braces", n_fstring_braces),
+    # Only the finding that is still open. The neutralisers of the repaired findings (F08, F18, F19, F21,
+    # F22, F23) are deliberately NOT consulted any more: those shapes must now clean correctly.
     ("C13:code-after-main-guard-deleted", n_after_guard),
-    ("C13:consecutive-indented-pass-lines-not-idempotent", n_double_pass),
-    ("C13:pass-followed-by-own-line-hint-comment", n_pass_then_hint),
 ]
 
 
@@ -1110,7 +1114,7 @@ def run(ctx):
             except Exception:  # noqa
                 pass
         generated = []
-        for i in range(300 if quick else 3000):
+        for i in range(600 if quick else 5000):
             core_items = gen.program()
             used = set(gen.used)
             level = ctx.rng.choice([0.2, 0.4, 0.6])
